@@ -117,9 +117,13 @@ where
     NewCodec: FnOnce(&Address, Context) -> Result<Codec>,
     Codec: Encoder<BytesMut, Error = anyhow::Error> + Decoder<Item = BytesMut, Error = anyhow::Error> + Send + 'static + Unpin,
 {
+    // a second handle on the local socket, so that it can be closed gently once the flow has ended (see linger_close)
+    let inbound = inbound.into_std()?;
+    let local = inbound.try_clone()?;
+    let inbound = TcpStream::from_std(inbound)?;
     let local_client = Framed::new(inbound, BytesCodec);
     let codec = new_codec(peer_addr, context)?;
-    Ok(match (&config.ssl, &config.ws, &config.quic) {
+    let result = match (&config.ssl, &config.ws, &config.quic) {
         (None, None, None) => {
             let client_server = new_plain_outbound(&config.host, config.port, codec).await?;
             relay_tcp(local_client, client_server).await
@@ -140,7 +144,30 @@ where
             let client_server = new_wss_outbound(&config.host, config.port, codec, ssl_config, ws_config).await?;
             relay_tcp(local_client, client_server).await
         }
-    })
+    };
+    linger_close(local).await;
+    Ok(result)
+}
+
+/// how long the local socket of an ended flow is kept to let the application take what is still queued for it
+const LINGER: Duration = Duration::from_secs(2);
+
+/// Closes the local socket of an ended flow gently: closing a socket that still holds unread input (an application that
+/// keeps writing) resets the connection and discards the output queued on it, i.e. the tail of the answer. So the write
+/// side is shut down, input is read and thrown away until the application closes or LINGER has passed, then it is dropped.
+async fn linger_close(local: std::net::TcpStream) {
+    let _ = local.shutdown(std::net::Shutdown::Write);
+    if let Ok(mut local) = TcpStream::from_std(local) {
+        let mut scratch = [0u8; 4096];
+        let _ = time::timeout(LINGER, async {
+            while let Ok(n) = tokio::io::AsyncReadExt::read(&mut local, &mut scratch).await {
+                if n == 0 {
+                    break;
+                }
+            }
+        })
+        .await;
+    }
 }
 
 /// how long a flow of which one direction has ended cleanly waits for the other direction to end too
